@@ -150,6 +150,17 @@ where
 	let mut context = w.get_private_context(keychain_mask, sl.id.as_bytes())?;
 	check_ttl(w, &sl)?;
 	if sl.state == SlateState::Invoice2 {
+		// The payer of an invoice chooses the fee, so the issuer has none on record. A
+		// fee on record was fixed when this wallet initiated the transaction, and a
+		// reply cannot restate it
+		if let Some(f) = context.fee {
+			if sl.fee_fields != f {
+				return Err(Error::Fee(format!(
+					"Fee {:?} on slate does not match the fee {:?} fixed at initiation",
+					sl.fee_fields, f
+				)));
+			}
+		}
 		// Add our contribution to the offset
 		sl.adjust_offset(&w.keychain(keychain_mask)?, &context)?;
 
@@ -159,6 +170,11 @@ where
 		selection::repopulate_tx(&mut *w, keychain_mask, &mut sl, &temp_ctx, false)?;
 
 		tx::complete_tx(&mut *w, keychain_mask, &mut sl, &context)?;
+		// a payment proof asked for at initiation is owed whatever state the reply claims
+		if context.payment_proof_recipient_address.is_some() {
+			let parent_key_id = w.parent_key_id();
+			tx::verify_slate_payment_proof(&mut *w, keychain_mask, &parent_key_id, &context, &sl)?;
+		}
 		tx::update_stored_tx(&mut *w, keychain_mask, &context, &mut sl, true)?;
 		{
 			let mut batch = w.batch(keychain_mask)?;
